@@ -91,7 +91,25 @@ def names_tmpl(t, T):
     return False
 
 
-def render_prog(n, prog, force_fwd=False):
+def simple_slot(defs, T, sl):
+    """the slot's target names no template-id and not the class itself (a member FUNCTION whose signature names another
+    instantiation makes interrogate instantiate and export that one too — without bound when it grows: finding
+    C06-templ-self-growing-signature); such slots get no member functions in the methods view"""
+    def ok(t):
+        k = t[0]
+        if k in ("t", "self"):
+            return False
+        if k in ("ptr", "ref", "c", "m"):
+            return ok(t[1])
+        if k == "own":
+            return ok(defs[T][t[1]])
+        return True
+    return ok(defs[T][sl])
+
+
+def render_prog(n, prog, force_fwd=False, methods=False):
+    """methods=True adds, for every member typedef slot, two published member functions whose return and parameter
+    types are the slot's target (the view a user of the bindings has of an instantiation)"""
     dflt, defs, alias = prog
     PN = PNn(n)
     need_fwd = force_fwd
@@ -117,6 +135,14 @@ def render_prog(n, prog, force_fwd=False):
         h = heads[T] % ((("" if need_fwd else d), n) if T == "P" else n)
         body = " ".join("typedef %s %s;" % (rt(defs[T][s], n, PN[T], True, selfname="%s%d" % (T, n)), s)
                         for s in ("m1", "m2") if defs[T][s][0] != "none")
+        if methods:
+            ms = []
+            for sl in ("m1", "m2"):
+                if defs[T][sl][0] != "none" and simple_slot(defs, T, sl):
+                    ty = rt(defs[T][sl], n, PN[T], True, selfname="%s%d" % (T, n))
+                    ms.append("%s f%d_%s%s(%s x, int k = 0) const; static %s g%d_%s%s();" % (ty, n, T, sl, ty, ty, n, T, sl))
+            if ms:
+                body += " __published: " + " ".join(ms)
         out.append("%s { %s };" % (h, body))
     if alias[0] != "none":
         out.append("template<class %s> using V%d = %s;" % (PN["V"][0], n, rt(alias, n, PN["V"], True)))
@@ -295,6 +321,66 @@ def run_probes(ctx, work):
     return n_done
 
 
+# ---- what the database says about an EXPORTED instantiation (member functions with default arguments that mention a
+# template parameter, variadic members, virtual bases, inherited virtualness, final): one fixed library
+DB_PROBE = """struct Item { Item(int); };
+struct NB { virtual ~NB(); virtual int f(int x) const; };
+template<class T, class U> struct E {
+__published:
+  void a(T v = T(0)); void b(U u = U(7)); void c(T *p = static_cast<T *>(0)); void d(int n = (int)sizeof(T));
+  int log(T first, ...);
+};
+template<class T> struct Vt : virtual NB { __published: T get(); };
+template<class T> struct Dt : NB { __published: T f(T x) const; };
+template<class T> struct Fin final { __published: T get(); };
+typedef E<char, Item> Ec; typedef Vt<int> Vi; typedef Dt<int> Di; typedef Fin<int> Fi;
+"""
+DB_PROBE_PROTOS = {"a": "void E< char, Item >::a(char v = char(0));", "b": "void E< char, Item >::b(Item u = Item(7));",
+                   "c": "void E< char, Item >::c(char *p = static_cast<char *>(0));",
+                   "d": "void E< char, Item >::d(int n = (int)(sizeof(char)));", "log": "int E< char, Item >::log(char first, ...);"}
+
+
+def run_db_probe(ctx, work):
+    fn = "probe_db.h"
+    open(os.path.join(work, fn), "w").write(DB_PROBE)
+    r = subprocess.run(["g++", "-std=c++17", "-fsyntax-only", "-D__published=public", "-x", "c++", fn], cwd=work,
+                       stdout=subprocess.PIPE, stderr=subprocess.PIPE, text=True)
+    if r.returncode != 0:
+        raise MachineryError("g++ rejects the database probe header: " + r.stderr[:800])
+    rr = run.run_tool("interrogate", ["-od", "probe_db.in", "-oc", "probe_db.cxx", "-module", "m", "-library", "l", "-c", "-fnames", fn],
+                      cwd=work, timeout=120)
+    wrong = []
+    if rr.rc != 0:
+        wrong.append("interrogate fails: rc=%s signal=%s %s" % (rr.rc, rr.signal, rr.stderr.strip()[-200:]))
+    else:
+        db = idb.dump([os.path.join(work, "probe_db.in")])
+        norm = lambda t: re.sub(r"\s+", "", t)
+        protos = {}
+        for f in db["functions"].values():
+            if "<" in f["scoped_name"]:
+                protos.setdefault(f["name"], []).append(f)
+                if re.search(r"\b[TU]\b", f["prototype"]):
+                    wrong.append("prototype of a member of an instantiation mentions a template parameter: " + f["prototype"])
+        for name, exp in sorted(DB_PROBE_PROTOS.items()):
+            got = [f["prototype"].strip() for f in protos.get(name, []) if f["scoped_name"].startswith("E<")]
+            if [norm(g) for g in got] != [norm(exp)]:
+                wrong.append("E<char, Item>::%s is described as %s, the declaration instantiates to `%s`" % (name, got, exp))
+        fs = [f for f in protos.get("f", []) if f["scoped_name"].startswith("Dt<")]
+        if len(fs) != 1 or not fs[0]["is_virtual"]:
+            wrong.append("Dt<int>::f overrides NB::f(int) const but is not described as virtual: %s" % [f["prototype"] for f in fs])
+        types = dict((t.get("name"), t) for t in db["types"].values())
+        vt = types.get("Vt< int >")
+        if not vt or len(vt["derivations"]) != 1 or vt["derivations"][0]["has_downcast"] or not vt["derivations"][0]["downcast_is_impossible"]:
+            wrong.append("Vt<int> has a VIRTUAL base NB (no downcast possible); the database says %s" % (vt and vt["derivations"]))
+        fi = types.get("Fin< int >")
+        if not fi or not fi["is_final"]:
+            wrong.append("Fin<int> is final; the database says is_final = %s" % (fi and fi["is_final"]))
+    for w in wrong:
+        ctx.violation("exported template instantiation described untruthfully: " + w, dict(header=DB_PROBE, observed=w,
+                      stat_key="templ-db-probe"))
+    return 10
+
+
 def templ_inst(ctx, work):
     cap_p, cap_q = (1500, 12) if ctx.tier == "quick" else (25000, 30)
     rng = random.Random(6)
@@ -463,16 +549,115 @@ def templ_inst(ctx, work):
                 bad3[owner3[l]] = protos[owner3[l]]
             else:
                 return ("sanity", "database TU fails outside any case:\n" + err[:1500])
-        return ("ok", batch, rejected, bad_cases, compared, bad3, missing3, dbfail, len(owner3))
+        # (4) member functions of exported instantiations: for one root per template and program (a depth-1 query
+        # T<args>::slot of the dump gives the expected type), `typedef T<args> Inst;` exports the instantiation and the
+        # database must describe  slot-type f(slot-type x, int k = 0) const  and  static slot-type g()  with that type
+        mcases = {}                     # (n, T, slot) -> (root term, expected term)
+        for n, prog, qs in batch:
+            if n in rej or n % 2 != 1:
+                continue
+            seen_T = {}
+            for q, r in qs:
+                if q[0] == "m" and q[1][0] == "t" and q[1][1] in "PQR" and q[2] in ("m1", "m2") and simple_slot(prog[1], q[1][1], q[2]):
+                    T = q[1][1]
+                    if seen_T.setdefault(T, json.dumps(q[1])) == json.dumps(q[1]):
+                        mcases[(n, T, q[2])] = (q[1], r)
+        bad4, n4 = {}, 0
+        if mcases:
+            src4 = list(PRELUDE)
+            for n, prog, qs in batch:
+                if any(k[0] == n for k in mcases):
+                    src4 += render_prog(n, prog, force_fwd=(n % 3 == 0), methods=True)
+                    for T in "PQR":
+                        roots = set(json.dumps(v[0]) for k, v in mcases.items() if k[0] == n and k[1] == T)
+                        for j, rj in enumerate(sorted(roots)):
+                            src4.append("typedef %s Inst%d_%s%d;" % (rt(json.loads(rj), n), n, T, j))
+            fn4 = "tm%03d.h" % bi
+            open(os.path.join(work, fn4), "w").write("\n".join(src4) + "\n")
+            rr = run.run_tool("interrogate", ["-od", fn4[:-2] + ".in", "-oc", fn4[:-2] + ".cxx", "-module", "m", "-library", "l",
+                                              "-c", "-fnames", fn4], cwd=work, timeout=600)
+            if rr.rc != 0 or rr.timed_out:
+                bad4[("batch", bi)] = "interrogate rc=%s signal=%s timeout=%s %s" % (rr.rc, rr.signal, rr.timed_out, rr.stderr.strip()[-300:])
+            else:
+                db = idb.dump([os.path.join(work, fn4[:-2] + ".in")])
+                found = {}
+                for f in db.get("functions", {}).values():
+                    m = re.match(r"([fg])(\d+)_([PQR])(m[12])$", f["name"])
+                    if m:
+                        found.setdefault((m.group(1), int(m.group(2)), m.group(3), m.group(4)), []).append(f)
+                lines = ["#include <type_traits>", "#define __published public", '#include "%s"' % fn4]
+                owner4 = {}
+                for (n, T, sl), (root, r) in sorted(mcases.items()):
+                    exp = rt(r, n)
+                    for kind in "fg":
+                        fs = found.get((kind, n, T, sl), [])
+                        if len(fs) != 1:
+                            bad4[(n, T, sl, kind)] = "%d functions named %s%d_%s%s in the database" % (len(fs), kind, n, T, sl)
+                            continue
+                        proto = fs[0]["prototype"].strip()
+                        sc = fs[0]["scoped_name"]
+                        i0 = proto.find(sc + "(")
+                        if i0 < 0:
+                            bad4[(n, T, sl, kind)] = "prototype `%s` does not contain `%s(`" % (proto, sc)
+                            continue
+                        ret = proto[:i0].strip()
+                        if ret.startswith("static "):
+                            ret = ret[7:].strip()
+                        cls_txt = sc[:sc.rfind("::")]
+                        lines.append("static_assert(std::is_same<%s, %s>::value && std::is_same<%s, %s>::value, \"\");" % (
+                            ret, exp, cls_txt, rt(root, n)))
+                        owner4[len(lines)] = ((n, T, sl, kind), "return type / class: " + proto)
+                        if kind == "f":
+                            args = proto[i0 + len(sc) + 1:]
+                            depth, cut = 0, None
+                            for ci, ch in enumerate(args):
+                                if ch in "(<[":
+                                    depth += 1
+                                elif ch in ")>]":
+                                    if depth == 0:
+                                        break
+                                    depth -= 1
+                                elif ch == "," and depth == 0 and cut is None:
+                                    cut = ci
+                            p1 = re.sub(r"\bx\s*$", "", args[:cut if cut is not None else ci]).strip()
+                            lines.append("static_assert(std::is_same<%s, %s>::value, \"\");" % (p1, exp))
+                            owner4[len(lines)] = ((n, T, sl, kind), "parameter type: " + proto)
+                            if not proto.rstrip(";").rstrip().endswith("const") or "int k = 0" not in proto:
+                                bad4[(n, T, sl, "f-shape")] = "prototype lost `const` or the default argument: " + proto
+                        n4 += 1
+                open(os.path.join(work, "tm%03d_cmp.cxx" % bi), "w").write("\n".join(lines) + "\n")
+                badl, err = gxx_bad_lines(work, "tm%03d_cmp.cxx" % bi)
+                for l in badl:
+                    if l in owner4:
+                        bad4[owner4[l][0]] = owner4[l][1]
+                    else:
+                        return ("sanity", "member-function TU fails outside any case:\n" + err[:1500])
+        return ("ok", batch, rejected, bad_cases, compared, bad3, missing3, dbfail, len(owner3), bad4, n4, mcases)
 
     total = 0
     stats = {}
     for res in run.pmap(one, list(enumerate(batches))):
         if res[0] == "sanity":
             raise MachineryError("TemplInst spec != g++: %s" % res[1])
-        _, batch, rejected, bad_cases, compared, bad3, missing3, dbfail, n3 = res
+        _, batch, rejected, bad_cases, compared, bad3, missing3, dbfail, n3, bad4, n4, mcases = res
         byn = dict((c[0], c) for c in batch)
-        total += compared + len(rejected) + n3
+        total += compared + len(rejected) + n3 + n4
+        stats["member_functions"] = stats.get("member_functions", 0) + n4
+        for key, what in sorted(bad4.items(), key=repr):
+            if key[0] == "batch":
+                ctx.violation("interrogate fails on exported template instantiations: %s" % what, dict(stat_key="templ-methods-batch"))
+                continue
+            n, T, sl = key[0], key[1], key[2]
+            prog = byn[n][1]
+            root, r = mcases[(n, T, sl)]
+            ctx.violation("member function of an exported instantiation is described with another type: %s   typedef %s Inst;  slot %s (spec = g++: %s): %s" % (
+                " ".join(render_prog(n, prog, n % 3 == 0, methods=True)), rt(root, n), sl, rt(r, n), what),
+                dict(program=render_prog(n, prog, n % 3 == 0, methods=True), root=rt(root, n), slot=sl, expected=rt(r, n), observed=what,
+                     view="database, member functions", stat_key="templ-method " + " ".join(feats(prog, ["m", root, sl]))),
+                # (a template named by another one with an equally named parameter is also exported in that
+                # half-instantiated form, with its member functions: the same finding)
+                classes=templ_classes(n, prog, ["m", root, sl]) +
+                (["C06-templ-shared-parameter-name"] if any(h[1] == T for h in shared_name_uses(n, prog)) else []))
         for n, info in rejected:
             prog = byn[n][1]
             ctx.violation("valid class templates rejected by parse_file (%s): %s" % (info, " ".join(render_prog(n, prog, n % 3 == 0))),
@@ -511,9 +696,11 @@ def templ_inst(ctx, work):
             for c in templ_classes(n, byn[n][1], byn[n][2][qi][0]):
                 ctx.notes["finding_class_failed_of_members"][c][0] += 1
     total += run_probes(ctx, work)
+    total += run_db_probe(ctx, work)
     ctx.notes["templ_programs"] = len(cases)
     ctx.notes["templ_queries"] = sum(len(c[2]) for c in cases)
     ctx.notes["templ_db_functions_absent"] = stats.get("db_missing", 0)
+    ctx.notes["templ_member_functions_checked"] = stats.get("member_functions", 0)
     return total
 
 
